@@ -1351,3 +1351,164 @@ pub fn c14(rec: &mut Rec, rng: &mut Rng, thorough: bool) {
         }
     }
 }
+
+/// Bounded-exhaustive histories of ONE connection ("small scope"): every sequence of up to `depth` operations over
+/// a fixed alphabet of reads (request pieces that complete, continue, pipeline or break a request; with and without
+/// a descriptor), empty reads, end of stream, pops, enqueues, writes (all / short / EINTR / failure) and clear.
+/// Random generators interleave the input and output sides, pop timing and faults only by chance; this suite
+/// visits every such interleaving of short length. Each history is replayed on the model op by op; the
+/// implementation-level oracles are: no panic (C03), accepted bytes = a prefix of what was queued (C06, incl. the
+/// 100 Continue a read queues itself), every descriptor handed over at most once and never to a request that
+/// completed before it arrived (C12).
+pub fn conn_enum(rec: &mut Rec, _rng: &mut Rng, thorough: bool) {
+    #[derive(Clone, Copy, PartialEq)]
+    enum Op {
+        R(&'static [u8], usize),
+        Eagain,
+        Eof,
+        Pop,
+        Enq,
+        W(u8),
+        Clear,
+    }
+    const CONT11: &[u8] = b"HTTP/1.1 100 \r\nServer: Firecracker API\r\nConnection: keep-alive\r\n\r\n";
+    let alphabet: Vec<Op> = vec![
+        Op::R(b"GET /a HTTP/1.1\r\n", 0),
+        Op::R(b"GET /a HTTP/1.1\r\n", 1),
+        Op::R(b"\r\n", 0),
+        Op::R(b"X: y\r", 1),
+        Op::R(b"\nZ:w\r\n", 0),
+        Op::R(b"PUT /b HTTP/1.1\r\nExpect: 100-continue\r\nContent-Length: 2\r\n\r\n", 0),
+        Op::R(b"a", 1),
+        Op::R(b"bGET /c HTTP/1.0\r\n\r\nGET /d HT", 0),
+        Op::R(b"TP/1.1\r\n\r\n", 0),
+        Op::R(b"BAD\r\n", 0),
+        Op::Eagain,
+        Op::Eof,
+        Op::Pop,
+        Op::Enq,
+        Op::W(0),
+        Op::W(1),
+        Op::W(2),
+        Op::W(3),
+        Op::Clear,
+    ];
+    let depth = if thorough { 5 } else { 4 };
+    let n = alphabet.len();
+    let mut idx: Vec<usize> = vec![];
+    // all sequences of length 1..=depth (odometer)
+    let mut len = 1;
+    idx.push(0);
+    let resp = RespSpec { v11: true, code: 200, ops: vec![BOp::Body(b"xy".to_vec())] };
+    let resp_bytes = crate::suites::response::serialize(&resp);
+    loop {
+        // run the sequence `idx`
+        rec.case("enum");
+        let mut d = ConnDriver::new(rec, 51200);
+        let mut expected: Vec<u8> = vec![]; // queued since the last discard (application + interim responses)
+        let mut accepted: Vec<u8> = vec![];
+        let mut arrived: Vec<usize> = vec![]; // descriptor tokens in arrival order
+        let mut seen_delivered = 0usize;
+        for &k in &idx {
+            if d.conn.is_none() {
+                break;
+            }
+            match alphabet[k] {
+                Op::R(bytes, nf) => {
+                    let before = d.tokens.next;
+                    d.recv(rec, bytes, nf);
+                    arrived.extend(before..d.tokens.next);
+                }
+                Op::Eagain => {
+                    d.rerr(rec, libc::EAGAIN);
+                }
+                Op::Eof => {
+                    d.eof(rec, 0);
+                }
+                Op::Pop => {
+                    d.pop(rec);
+                }
+                Op::Enq => {
+                    d.enqueue(rec, &resp);
+                    expected.extend_from_slice(&resp_bytes);
+                }
+                Op::W(kind) => {
+                    let w = match kind {
+                        0 => WAct::Accept(1 << 20),
+                        1 => WAct::Accept(3),
+                        2 => WAct::Intr,
+                        _ => WAct::Fail,
+                    };
+                    let (res, acc) = d.write(rec, w);
+                    accepted.extend_from_slice(&acc);
+                    if res == "closed" {
+                        expected.clear();
+                        accepted.clear();
+                    }
+                }
+                Op::Clear => {
+                    d.clear(rec);
+                    expected.clear();
+                    accepted.clear();
+                }
+            }
+            // C06 on the implementation alone: what the stream accepted, with the interim responses the reads queued
+            // themselves taken out (complete ones anywhere, a partly written one at the very end), is a prefix of what
+            // the application enqueued since the last discard
+            let mut acc_wo: Vec<u8> = accepted.clone();
+            while let Some(p) = acc_wo.windows(CONT11.len()).position(|w| w == CONT11) {
+                acc_wo.drain(p..p + CONT11.len());
+            }
+            let mut cut = 0;
+            for k in (1..CONT11.len().min(acc_wo.len() + 1)).rev() {
+                if acc_wo.ends_with(&CONT11[..k]) {
+                    cut = k;
+                    break;
+                }
+            }
+            let stripped = &acc_wo[..acc_wo.len() - cut];
+            if !(expected.starts_with(&acc_wo) || expected.starts_with(stripped)) {
+                rec.oracle_fail("C06", "accepted bytes are not the queued responses in order", &d.log);
+            }
+            if d.panicked {
+                rec.oracle_fail("C03", "a call panicked in a short history of one connection", &d.log);
+                break;
+            }
+            // C12: no descriptor handed over twice; a request never carries a descriptor that arrived after it was popped
+            let all_files: Vec<usize> = d.delivered.iter().flat_map(|x| x.files.iter().cloned()).collect();
+            let mut sorted = all_files.clone();
+            sorted.sort();
+            sorted.dedup();
+            if sorted.len() != all_files.len() || all_files.iter().any(|t| !arrived.contains(t)) {
+                rec.oracle_fail("C12", "a descriptor was handed over twice (or never arrived)", &d.log);
+            }
+            if all_files.windows(2).any(|w| w[0] > w[1]) {
+                rec.oracle_fail("C12", "descriptors were handed over out of arrival order", &d.log);
+            }
+            seen_delivered = d.delivered.len();
+        }
+        let _ = seen_delivered;
+        d.popall(rec);
+        if idx.iter().any(|&k| matches!(alphabet[k], Op::R(_, _))) && idx.iter().any(|&k| !matches!(alphabet[k], Op::R(_, _))) {
+            rec.nontrivial();
+        }
+        // next sequence
+        let mut pos = idx.len();
+        loop {
+            if pos == 0 {
+                len += 1;
+                idx = vec![0; len];
+                break;
+            }
+            pos -= 1;
+            idx[pos] += 1;
+            if idx[pos] < n {
+                break;
+            }
+            idx[pos] = 0;
+        }
+        if len > depth {
+            break;
+        }
+    }
+}
